@@ -648,6 +648,8 @@ class SymX:
             return self._atom(("unk", key, 0), key)
         if tag == "mcall" and t[2] in ("split", "rsplit", "splitlines") and t[2] != "splitlines":
             return TRUE  # str.split never returns an empty list
+        if _nonempty_str(t):
+            return TRUE
         if tag == "call" and t[1] == ("builtin", "bool") and len(t[2]) == 1:
             return self.truth(t[2][0])
         if tag == "call" and t[1] == ("builtin", "len") and len(t[2]) == 1:
@@ -1692,6 +1694,18 @@ _NEVER_NONE_METHODS = {
 }
 _NEVER_NONE_FUNCS = {"str", "list", "tuple", "set", "dict", "sorted", "len", "open", "repr", "int", "bool", "frozenset", "reversed", "zip", "map", "filter", "enumerate", "range"}
 _NEVER_NONE_LIBS = {"ast.parse", "pathlib.Path", "os.fspath", "os.listdir", "os.path.join", "os.path.dirname", "os.path.basename", "os.path.abspath", "os.path.relpath", "os.path.splitext", "os.path.split"}
+
+
+def _nonempty_str(t: Term) -> bool:
+    """The text of a path is never empty (the empty relative path is '.')."""
+    if t[0] == "call" and t[1] == ("builtin", "str") and len(t[2]) == 1:
+        x = t[2][0]
+        return x[0] == "mcall" and x[2] in ("relative_to", "resolve", "absolute", "with_suffix") or x[0] == "attr" and x[2] == "parent" or x[0] == "call" and x[1] == ("lib", "pathlib.Path")
+    if t[0] == "mcall" and t[2] == "replace" and len(t[3]) == 2 and t[3][1][0] == "const" and t[3][1][1]:
+        return _nonempty_str(t[1])
+    if t[0] == "mcall" and t[2] == "as_posix":
+        return True
+    return False
 
 
 def _never_none(t: Term) -> bool:
